@@ -8,10 +8,10 @@ set_option linter.unusedSimpArgs false
 namespace Cello.Own
 open List
 
-/-- every operation of the history is in contract in the world it is applied to -/
-def allInContract : World → List Op → Prop
+/-- every operation of the history is outside the territory of the known findings in the world it is applied to -/
+def allNKF : World → List Op → Prop
   | _, [] => True
-  | w, op :: ops => inContract w op = true ∧ allInContract (step w op).1 ops
+  | w, op :: ops => noKnownFinding w op = true ∧ allNKF (step w op).1 ops
 
 @[simp] theorem run_nil (w : World) : run w [] = (w, []) := rfl
 theorem run_cons (w : World) (op : Op) (ops : List Op) :
@@ -24,13 +24,13 @@ theorem run_append (w : World) (ops ops' : List Op) :
   | nil => rfl
   | cons op ops ih => simp [run_cons, ih]
 
-theorem allInContract_append {w : World} {ops ops' : List Op} :
-    allInContract w (ops ++ ops') ↔ allInContract w ops ∧ allInContract (run w ops).1 ops' := by
+theorem allNKF_append {w : World} {ops ops' : List Op} :
+    allNKF w (ops ++ ops') ↔ allNKF w ops ∧ allNKF (run w ops).1 ops' := by
   induction ops generalizing w with
-  | nil => simp [allInContract]
-  | cons op ops ih => simp [allInContract, run_cons, ih, and_assoc]
+  | nil => simp [allNKF]
+  | cons op ops ih => simp [allNKF, run_cons, ih, and_assoc]
 
-theorem run_inv {w : World} (hinv : Inv w) (ops : List Op) (h : allInContract w ops) : Inv (run w ops).1 := by
+theorem run_inv {w : World} (hinv : Inv w) (ops : List Op) (h : allNKF w ops) : Inv (run w ops).1 := by
   induction ops generalizing w with
   | nil => exact hinv
   | cons op ops ih =>
@@ -38,7 +38,7 @@ theorem run_inv {w : World} (hinv : Inv w) (ops : List Op) (h : allInContract w 
     exact ih (step_ok hinv op h.1).inv h.2
 
 /-- the finalised identities only accumulate -/
-theorem run_retired_mono {w : World} (hinv : Inv w) (ops : List Op) (h : allInContract w ops) :
+theorem run_retired_mono {w : World} (hinv : Inv w) (ops : List Op) (h : allNKF w ops) :
     ∀ i ∈ w.retiredLog, i ∈ (run w ops).1.retiredLog := by
   induction ops generalizing w with
   | nil => intro i hi; exact hi
@@ -48,7 +48,7 @@ theorem run_retired_mono {w : World} (hinv : Inv w) (ops : List Op) (h : allInCo
     have hs := step_ok hinv op h.1
     exact ih hs.inv h.2 i (by rw [hs.retired]; exact List.mem_append_right _ hi)
 
-theorem run_issued_mono {w : World} (hinv : Inv w) (ops : List Op) (h : allInContract w ops) :
+theorem run_issued_mono {w : World} (hinv : Inv w) (ops : List Op) (h : allNKF w ops) :
     ∀ i ∈ w.issuedLog, i ∈ (run w ops).1.issuedLog := by
   induction ops generalizing w with
   | nil => intro i hi; exact hi
@@ -58,8 +58,8 @@ theorem run_issued_mono {w : World} (hinv : Inv w) (ops : List Op) (h : allInCon
     have hs := step_ok hinv op h.1
     exact ih hs.inv h.2 i (by rw [hs.issued]; exact List.mem_append_right _ hi)
 
-theorem delAll_inContract (objs : List (Nat × Cont)) (w : World) :
-    allInContract w (objs.map (fun cx => Op.del cx.1)) := by
+theorem delAll_nkf (objs : List (Nat × Cont)) (w : World) :
+    allNKF w (objs.map (fun cx => Op.del cx.1)) := by
   induction objs generalizing w with
   | nil => trivial
   | cons cx rest ih => exact ⟨rfl, ih _⟩
@@ -109,5 +109,56 @@ theorem inv_retired_nodup {w : World} (hinv : Inv w) : w.retiredLog.Nodup :=
 
 theorem inv_contents_nodup {w : World} (hinv : Inv w) : (allIds w.objs).Nodup :=
   (List.nodup_append.mp (hinv.cons.nodup_iff.mp hinv.nodup)).2.1
+
+/-! ### in-contract histories: no known-finding territory and no ill-formed operation -/
+
+/-- every operation of the history is in contract in the world it is applied to -/
+def allInContract : World → List Op → Prop
+  | _, [] => True
+  | w, op :: ops => inContract w op = true ∧ allInContract (step w op).1 ops
+
+theorem inContract_nkf {w : World} {op : Op} (h : inContract w op = true) : noKnownFinding w op = true := by
+  simp only [inContract, Bool.and_eq_true] at h; exact h.1
+
+theorem inContract_notBad {w : World} {op : Op} (h : inContract w op = true) : (step w op).2.bad = false := by
+  simp only [inContract, Bool.and_eq_true, Bool.not_eq_true'] at h; exact h.2
+
+theorem allInContract.nkf {w : World} {ops : List Op} (h : allInContract w ops) : allNKF w ops := by
+  induction ops generalizing w with
+  | nil => trivial
+  | cons op ops ih => exact ⟨inContract_nkf h.1, ih h.2⟩
+
+theorem allInContract_append {w : World} {ops ops' : List Op} :
+    allInContract w (ops ++ ops') ↔ allInContract w ops ∧ allInContract (run w ops).1 ops' := by
+  induction ops generalizing w with
+  | nil => simp [allInContract]
+  | cons op ops ih => simp [allInContract, run_cons, ih, and_assoc]
+
+/-- in an in-contract history every operation was executed: none was skipped as ill-formed -/
+theorem allInContract_noBad {w : World} {ops : List Op} (h : allInContract w ops) : ∀ o ∈ (run w ops).2, o.bad = false := by
+  induction ops generalizing w with
+  | nil => intro o ho; simp [run] at ho
+  | cons op ops ih =>
+    intro o ho
+    rw [run_cons] at ho
+    rcases List.mem_cons.mp ho with rfl | ho
+    · exact inContract_notBad h.1
+    · exact ih h.2 o ho
+
+/-- the final deletions are in contract: every remaining name is bound -/
+theorem delAll_inContract (w : World) : allInContract w (delAllOps w) := by
+  have key : ∀ (objs : List (Nat × Cont)) (w : World), w.objs = objs →
+      allInContract w (objs.map (fun cx => Op.del cx.1)) := by
+    intro objs
+    induction objs with
+    | nil => intro w _; trivial
+    | cons cx rest ih =>
+      intro w hw
+      obtain ⟨c, x⟩ := cx
+      have hl : lookup w.objs c = some x := by simp [hw, lookup]
+      refine ⟨by simp [inContract, noKnownFinding, step, hl, commit], ih _ ?_⟩
+      simp only [step, hl, commit_objs, objsAfter]
+      simp [hw, erase]
+  exact key w.objs w rfl
 
 end Cello.Own
